@@ -127,7 +127,7 @@ def fuStartState (d : Dec) (seq : UInt16) (h : UInt8) (chunk : Bytes) : Dec :=
 
 /-- state after a middle fragment -/
 def fuMidState (d : Dec) (chunk : Bytes) : Dec :=
-  { d with fragmentsSize := d.fragmentsSize + chunk.length, fragments := d.fragments ++ [chunk],
+  { d with fragmentsSize := d.fragmentsSize + chunk.length, fragments := pushFrag d.fragments chunk,
            fragmentNextSeqNum := d.fragmentNextSeqNum + 1 }
 
 /-- state after the end fragment, before the frame-buffer stage -/
@@ -168,10 +168,11 @@ theorem decode_fu_end (d : Dec) (p : Pkt) (h : UInt8) (chunk : Bytes)
   obtain ⟨b0, b1, hh, r1, r2, r3, _⟩ := fuHdr_read h false true
   rw [hh] at hp
   have hgt : ¬ (d.fragmentsSize + chunk.length > maxAU) := by omega
-  have hjoin : joinFragments (d.fragments ++ [chunk]) (d.fragmentsSize + chunk.length)
+  have hjoin : joinFragments (pushFrag d.fragments chunk) (d.fragmentsSize + chunk.length)
       = d.fragments.flatten ++ chunk := by
-    have : d.fragmentsSize + chunk.length = totalLen (d.fragments ++ [chunk]) := by simp [hsz]
-    rw [this, joinFragments_exact]; simp
+    have : d.fragmentsSize + chunk.length = totalLen (pushFrag d.fragments chunk) := by
+      rw [pushFrag_totalLen, hsz]
+    rw [this, joinFragments_exact, pushFrag_flatten]
   have hne : d.fragments.flatten ++ chunk ≠ [] := by
     intro h0
     have := congrArg List.length h0
@@ -245,11 +246,11 @@ theorem fu_run_tail (c : EncCfg) (ts : UInt32) (h : UInt8) (avail : Nat) (m : Bo
       (by simp only [List.length_take]; omega)]
     have hflat : (fuMidState d (rest.take avail)).fragments.flatten ++ rest.drop avail
         = d.fragments.flatten ++ rest := by
-      simp [fuMidState, List.append_assoc]
+      simp [fuMidState, pushFrag_flatten, List.append_assoc]
     have hlen : (rest.take avail).length + (rest.drop avail).length = rest.length := by
       rw [← List.length_append, List.take_append_drop]
     rw [ih (rest.drop avail) (fuMidState d (rest.take avail)) (sq + 1)
-      (by simp [fuMidState, hsz]) (by simp [fuMidState]; omega) (by simp [fuMidState, hq])
+      (by simp [fuMidState, hsz, pushFrag_totalLen]) (by simp [fuMidState]; omega) (by simp [fuMidState, hq])
       (by simp only [fuMidState]; omega) (by simp [fuMidState, ha]) (by rw [hflat]; exact hsc)]
     rw [hflat, fuDone_mid]
     simp [List.replicate_succ]
